@@ -60,6 +60,11 @@ def gen_dag(rng, n):
     for i in range(n):
         k = rng.choice(kinds if i else ['const', 'enum', 'struct'])
         name = 'N%d' % i
+        if k in ('struct', 'typedef', 'union') and rng.random() < 0.12:
+            # a name that merely looks like a builtin type (no wire type of that width exists)
+            free = [x for x in ('u128', 'u24', 'i24', 'r8', 'r16', 'u1', 'i128') if x not in sch.by_name]
+            if free:
+                name = rng.choice(free)
         d = set()
         if k == 'const':
             r = rng.random()
@@ -185,7 +190,7 @@ def shape_sig(sch, deps):
     return repr(sorted((sch.by_name[n].kind, sorted(sch.by_name[x].kind for x in d)) for n, d in deps.items()))
 
 
-def compile_perm(stepper, wd, idx, sch, order, budget, inc_name=None):
+def compile_perm(stepper, wd, idx, sch, order, budget, inc_name=None, earlier=False):
     xml, patch = S.to_isar(sch, order=order)
     if inc_name:
         # an included file that happens to be called like one of the types defined here (and defines something else)
@@ -207,6 +212,11 @@ def compile_perm(stepper, wd, idx, sch, order, budget, inc_name=None):
         with open(os.path.join(d, inc_name + '.xml'), 'w') as f:
             f.write('<x><struct name="ZzUnrelated"><member name="a" type="u8"/></struct></x>\n')
         args.append(os.path.join(d, inc_name + '.xml'))
+    if earlier:
+        # another, unrelated input of the same run, processed first, that defines the same names (in a valid order)
+        with open(os.path.join(d, 'aa_earlier.xml'), 'w') as f:
+            f.write(S.to_isar(sch)[0])
+        args.append(os.path.join(d, 'aa_earlier.xml'))
     exc, steps, nodes = pc.run_main(args + [main], stepper, budget)
     return exc, steps, nodes, xml, d, pkg
 
@@ -216,8 +226,11 @@ def check_perm(acc, stepper, calib, wd, idx, sch, deps, order, w, ref_layouts, e
     inc_name = typenames[idx % len(typenames)] if typenames and idx % 4 == 0 else None
     if inc_name:
         acc.count('permutations_with_an_include_named_like_a_local_type')
-    exc, steps, nodes, xml, d, pkg = compile_perm(stepper, wd, idx, sch, order, 30 * calib + 4000 * len(order) * 200,
-                                                  inc_name)
+    earlier = idx % 4 == 1
+    if earlier:
+        acc.count('permutations_after_another_input_with_the_same_names')
+    exc, steps, nodes, xml, d, pkg = compile_perm(stepper, wd, idx, sch, order, 2 * (30 * calib + 4000 * len(order) * 200),
+                                                  inc_name, earlier)
     acc.ev()
     acc.count('permutations_compiled')
 
